@@ -174,13 +174,26 @@ W_READ = W('read', 'read', dict(n=PInt()), requires=['n >= -1'], ensures=[
     ('advance', 'result is not None ==> %s == %s + len(result)' % (P_ABS, P_ABS_OLD)),
     ('no-data-no-move', 'result is None ==> %s == %s' % (P_ABS, P_ABS_OLD)),
     ('bounded', '(result is not None and old(n) >= 0) ==> len(result) <= old(n)'),
+    # C11: fewer octets than asked for only when the source itself answered "nothing" (nothing yet, or the end): a raw
+    # stream that hands out its data in small pieces is read until the request is met
+    ('short-only-when-the-source-ran-dry', '(result is not None and old(n) >= 0 and len(result) < old(n)) ==> '
+                                           '(self._raw.none_seen or self._raw.eof_signalled)'),
     ('no-drop', 'self._raw.pos - len(self._cache.content) == old(self._raw.pos) - len(old(self._cache.content))')],
     hints=['X.lemma_extract_concat(self._raw.data, old(self._raw.pos) - len(old(self._cache.content)), '
            'old(self._raw.pos), self._raw.pos)',
            'X.lemma_extract_extract(self._raw.data, old(self._raw.pos) - len(old(self._cache.content)), '
            'len(old(self._cache.content)), old(self._cache.pos), len(read_from_cache))',
            'X.lemma_extract_concat(self._raw.data, %s, old(self._raw.pos), self._raw.pos)' % P_ABS_OLD],
-    external=['data', 'advance', 'no-data-no-move', 'bounded'], returns=PBytes(),
+    external=['data', 'advance', 'no-data-no-move', 'bounded', 'short-only-when-the-source-ran-dry'], returns=PBytes(),
+    # short answers of the raw stream are accumulated: what has been obtained so far are the octets from where the raw stream
+    # stood, never more than asked for
+    loops={0: Loop(invariant=['isinstance(read_from_raw, bytes)', 'n == -1 or (n >= 0 and len(read_from_raw) <= n)',
+                              'self._raw.pos <= len(self._raw.data)', 'self._raw.pos == old(self._raw.pos) + len(read_from_raw)',
+                              'read_from_raw == X.sub(self._raw.data, old(self._raw.pos), self._raw.pos)',
+                              '(len(read_from_raw) == 0 and n > 0) ==> self._raw.eof_signalled'],
+                   variant='n - len(read_from_raw)',
+                   havoc_fields=['self._raw.pos', 'self._raw.eof_signalled', 'self._raw.none_seen', 'self._raw.__reads__'],
+                   hints=['X.lemma_extract_concat(self._raw.data, old(self._raw.pos), iter_old(self._raw.pos), self._raw.pos)'])},
     modifies=['self._cache.content', 'self._cache.pos', 'self._raw.pos'])
 
 W_PEEK = W('peek', 'peek', dict(n=PInt()), requires=['n >= 0'], raw_mode='complete', ensures=[
